@@ -121,7 +121,7 @@ theorem mbk_execTx_eq {s s1 : State} {party : Party} {p : Peer} {id : Id} {ops :
     · rfl
     · simp only
       split
-      · generalize h : execTx (setState s id RState.queued) Party.mgr _ id [TxOp.ext] = pr
+      · generalize h : execTx (setState _ id RState.queued) Party.mgr _ id [TxOp.ext] = pr
         obtain ⟨s2, ok⟩ := pr
         have h1 : mbk s2 = mbk s := by
           have := mbk_execTx_eq h
